@@ -274,6 +274,21 @@ func (c *Client) preFault(call *Call, fault Fault) error {
 		e := &InjectedError{Kind: "request failed"}
 		setErr(call, e)
 		return e
+	case FaultStatusInternal, FaultStatusTooManyRequests, FaultStatusUnavailable, FaultStatusTimeout:
+		var e error
+		switch fault {
+		case FaultStatusInternal:
+			e = apierrors.NewInternalError(errors.New("injected: etcdserver: request timed out"))
+		case FaultStatusTooManyRequests:
+			e = apierrors.NewTooManyRequests("injected: too many requests", 1)
+		case FaultStatusUnavailable:
+			e = apierrors.NewServiceUnavailable("injected: apiserver is shutting down")
+		default:
+			e = apierrors.NewTimeoutError("injected: request did not complete within the allowed duration", 1)
+		}
+		setErr(call, e)
+		call.Injected = true
+		return e
 	}
 	return nil
 }
